@@ -17,7 +17,7 @@
    ([input_ok]: the real ticker only delivers timeouts the node scheduled). *)
 From Coq Require Import List NArith ZArith Lia Bool.
 From AnnVerif Require Import Base.Res Base.Bytes Model.VoteSet Model.ValSet Model.Node
-  Proofs.PowerSum Proofs.Protocol Proofs.NodeProofs Proofs.NodeBacked Proofs.Emit Proofs.SgWalk Proofs.CommitWalk Proofs.System.
+  Proofs.PowerSum Proofs.Protocol Proofs.NodeProofs Proofs.NodeBacked Proofs.Emit Proofs.SgWalk Proofs.CommitWalk Proofs.SignerDom Proofs.System.
 Import ListNotations.
 Open Scope Z_scope.
 
@@ -88,7 +88,7 @@ Print Assumptions c01_node_commit.
    one round in the trace *)
 Theorem c01_system_invariant :
   forall (VS : list validator), bounded VS -> forall (h0 : Z) (c : cfg), c_skip_commit c = false ->
-  forall (byz : nat -> bool) (S : System.sys), reachable VS h0 c byz S -> SysInv VS h0 byz S.
+  forall (byz : nat -> bool) (S : System.sys), reachable VS h0 c byz S -> SysInv VS h0 c byz S.
 Proof. exact reachable_SysInv. Qed.
 Print Assumptions c01_system_invariant.
 
@@ -103,6 +103,17 @@ Theorem c01_system_agreement :
 Proof. exact system_agreement. Qed.
 Print Assumptions c01_system_agreement.
 
+(* (8b) crash and restart inside the height are steps of that system ([sstep_restart]: the node is
+   re-initialised from its durable parts with the signer file as the crash left it and replays its
+   log), so (7) and (8) hold whatever crashes and restarts honest nodes go through - because the
+   replay of an intact log reproduces exactly the state before the crash and signs nothing afresh *)
+Theorem c01_restart_is_identity :
+  forall (c : cfg), c_skip_commit c = false ->
+  forall h vs lc me s0 ins n0 n, init_node h vs lc me s0 = Ok n0 -> run c ins n0 = Ok n ->
+  exists n0', init_node h vs lc me (sg n) = Ok n0' /\ run c ins n0' = Ok n.
+Proof. exact restart_is_identity. Qed.
+Print Assumptions c01_restart_is_identity.
+
 (* (9) where a commit comes from: an OCommit output of one handled input rests on valid precommits
    for one block id, in one round, from more than two thirds of the power, all delivered to the node *)
 Theorem c01_commit_backed :
@@ -114,7 +125,7 @@ Print Assumptions c01_commit_backed.
 
 (* ---- non-vacuity: four validators of power 1, the fourth Byzantine; the three honest nodes run
    a round, the Byzantine validator's nil prevote, a false majority claim and a conflicting precommit
-   are delivered, all
+   are delivered, the second node crashes after its precommit and restarts from its log, all
    three commit the same block; a forged vote of an honest validator is not admissible ---- *)
 Definition sx_a (k : N) : bytes := [k].
 Definition sx_vs : valset :=
@@ -128,7 +139,8 @@ Definition sx_node (i : nat) : node :=
   | Ok n => n
   | _ => mkNode 0 0 0 sx_vs sx_vs None None None 0 None (mkHvs 0 [] 0 [] []) 0 None None (mkSg 0 0 0 None)
   end.
-Definition sx_S0 : System.sys := mkSys sx_node (fun _ => []) (fun _ => []) [] [].
+Definition sx_S0 : System.sys :=
+  mkSys sx_node (fun _ => []) (fun _ => []) [] [] (fun i => (sx_vs, None, Some (sx_a (N.of_nat (i + 1))))) (fun _ => Some []).
 Definition sx_B : Node.blk := mkBlk [7%N] 1 [8%N] true.
 Definition sx_B' : Node.blk := mkBlk [9%N] 1 [8%N] true.
 Definition sx_vote (i : Z) (t : N) (r : Z) (b : block_id) : VoteSet.vote :=
@@ -138,16 +150,16 @@ Definition sx_script : list sevent :=
                       EIn j (IPart 1 0 0 sx_B true (match j with O => [] | _ => sx_a 1 end))]) [0; 1; 2]%nat
   ++ [EIn 0%nat (IVote (sx_vote 3 1 0 nil_bid) (sx_a 4)); EMaj 2%nat 0 1 (sx_a 4) (blk_bid sx_B')]
   ++ flat_map (fun j => map (fun k => EIn j (IVote (sx_vote k 1 0 (blk_bid sx_B)) (sx_a (Z.to_N (k + 1))))) [0; 1; 2]) [0; 1; 2]%nat
-  ++ [EIn 1%nat (IVote (sx_vote 3 2 0 (blk_bid sx_B')) (sx_a 4))]
+  ++ [ERestart 1%nat; EIn 1%nat (IVote (sx_vote 3 2 0 (blk_bid sx_B')) (sx_a 4))]
   ++ flat_map (fun j => map (fun k => EIn j (IVote (sx_vote k 2 0 (blk_bid sx_B)) (sx_a (Z.to_N (k + 1))))) [0; 1; 2]) [0; 1; 2]%nat.
 Notation sx_final := (exec sx_VS 1 (mkCfg false) sx_byz sx_S0 sx_script) (only parsing).
 
 Example c01_system_premises : bounded sx_VS /\ 3 * pow_of sx_VS sx_byz < pow_of sx_VS (fun _ => true) /\ init_sys sx_VS 1 sx_byz sx_S0.
 Proof.
   split; [split; [repeat constructor; cbn; lia|vm_compute; reflexivity]|]. split; [vm_compute; reflexivity|].
-  split; [reflexivity|]. split; [reflexivity|]. intros i Hi. split; [reflexivity|]. split; [reflexivity|].
+  split; [reflexivity|]. split; [reflexivity|]. intros i Hi. split; [reflexivity|]. split; [reflexivity|]. split; [reflexivity|].
   exists sx_vs, None, (Some (sx_a (N.of_nat (i + 1)))), (mkSg 0 0 0 None).
-  split; [|split; [vm_compute; reflexivity|cbn; lia]].
+  split; [reflexivity|]. split; [|split; [vm_compute; reflexivity|cbn; lia]].
   cbn [System.st sx_S0]. unfold sx_node, init_node. destruct (new_hvs 1 (vals_of sx_vs)) eqn:E; [reflexivity|vm_compute in E; discriminate..].
 Qed.
 Example c01_system_nonvacuous :
